@@ -10,7 +10,7 @@ CHECKS = {
              'flushed to the OS before the first memtable apply and before Ok, all under one hold of the journal lock, and that the unit carries the seqno, keyspace id, kind, key and value of the call; that batches and transactions '
              'are created with durability Some(Buffer) by default; of recover_journals over a symbolic directory (3 entries, symbolic ids, symbolic *.jnl flags; the sort is modelled by one continuation per feasible order): '
              'active = highest id, sealed = the rest ascending; of Database::recover (keyspaces, then sealed journals in that order, then the active journal) and Writer::rotate (new journal = old id + 1). '
-             'Torn tails, the per-record replay rule, counters and eviction are decided in C03 / C04 / C11 / C10. Counterexamples are replayed natively: 37+ process-crash images (directory copied while the process lives) over workloads '
+             'The torn-tail obligation of C03 (every cut offset of one journal shape) and the evict rule of C10 are decided here as well; the per-record replay rule and the counters are decided in C04 / C11. Counterexamples are replayed natively: 37+ process-crash images (directory copied while the process lives) over workloads '
              'with single writes, batches, clears, keyspace creation/deletion, rotation, flush, compaction, journal rotation and eviction; each image must reopen and equal the acknowledged state.',
         design_ref='DESIGN.md §5 C02',
         note='Trusted: F1/F2 (BufWriter::flush hands bytes to the OS in order; a process crash keeps them), E1. Outside: a crash in the middle of a system call issued inside lsm-tree (table/manifest writes), '
